@@ -87,11 +87,12 @@ Definition hanswer (s : state) (q : hq) : list (list N) :=
   | HOuter h => rows (Some (opt_list (outer_hwire s h)))
   | HRoots k n x r pats roots =>
       let pat := pat_sel (absolute_b true false) (matches_b true false) pats in
+      let dpat := pat_any_of (matches_b true false) pats in
       match k with
-      | HKPin => rows (get_hpins_roots s r pat roots)
-      | HKPort => rows (get_hports_roots s r pat roots)
-      | HKWire => match usum s n with Some u => rows (get_hwires_roots s x r pat u roots) | None => fuel_out end
-      | HKCable => match usum s n with Some u => rows (get_hcables_roots s x r pat u roots) | None => fuel_out end
+      | HKPin => rows (get_hpins_roots s r pat dpat roots)
+      | HKPort => rows (get_hports_roots s r pat dpat roots)
+      | HKWire => match usum s n with Some u => rows (get_hwires_roots s x r pat dpat u roots) | None => fuel_out end
+      | HKCable => match usum s n with Some u => rows (get_hcables_roots s x r pat dpat u roots) | None => fuel_out end
       | HKInst => [[1]]
       end
   | HOrdered k r pats h =>
